@@ -8,6 +8,7 @@ pub mod gen;
 pub mod engine;
 pub mod history;
 pub mod selftest;
+pub mod fuzzrun;
 pub mod realfs;
 pub mod drive;
 pub mod oracle;
